@@ -46,7 +46,8 @@ type histT struct {
 	Index  int    `json:"index"`
 	Shape  string `json:"shape"` // plain | backlog-fire | backlog-drain-write | backlog-drain-only
 	Ops    []opT  `json:"ops"`
-	D      int    `json:"d,omitempty"` // backlog shapes: write deadline in ms
+	D      int    `json:"d,omitempty"`                       // backlog shapes: write deadline in ms
+	Pre    string `json:"deadline_before_backlog,omitempty"` // backlog-fire: "" | Write | Writev - the deadline is set on the idle connection, then ONE call leaves the backlog
 }
 
 type coreCase struct {
@@ -72,6 +73,7 @@ func genHist(r *h.Run, idx int) histT {
 	case 7:
 		hs.Shape = "backlog-fire"
 		hs.D = 60 + rng.Intn(300)
+		hs.Pre = []string{"", "Writev", "Write"}[(idx/25)%3]
 		return hs
 	case 13:
 		hs.Shape = "backlog-drain-write"
@@ -434,6 +436,26 @@ func (x *hrun) runOps(rng *rand.Rand) {
 		_, _ = x.srv.Write([]byte{})
 		return
 	case "backlog-fire", "backlog-drain-write", "backlog-drain-only":
+		if x.hs.Shape == "backlog-fire" && x.hs.Pre != "" {
+			// the write deadline is pending on an idle connection; one call the kernel takes only partly
+			// leaves a backlog: that call did not empty the backlog, so the deadline stands and fires
+			x.shape = append(x.shape, "W", "backlog-by-one-"+x.hs.Pre)
+			x.record(x.call("W", x.hs.D, "app"))
+			big := make([]byte, 8<<20)
+			var n int
+			var err error
+			if x.hs.Pre == "Writev" {
+				n, err = x.srv.Writev([][]byte{big[:3<<20], big[3<<20:]})
+			} else {
+				n, err = x.srv.Write(big)
+			}
+			bk := nbio.VerifBacklog(x.srv)
+			x.logf("%s(%d) = %d, %v; backlog %d bytes in %d entries", x.hs.Pre, len(big), n, err, bk.BufBytes, bk.Entries)
+			if err != nil || n != len(big) || bk.Entries == 0 {
+				x.incon = fmt.Sprintf("no backlog after one %s of %d bytes (n=%d err=%v)", x.hs.Pre, len(big), n, err)
+			}
+			return
+		}
 		total, ok := x.fill()
 		if !ok {
 			x.incon = fmt.Sprintf("no backlog after %d bytes", total)
